@@ -1168,14 +1168,17 @@ func opAuth(pc *uint64, interpreter *EVMInterpreter, callContext *callCtx) ([]by
 		return nil, nil
 	}
 
+	// AUTH has no memorySize function, so the memory is not expanded to cover
+	// [offset, offset+128): read it zero-padded instead of slicing beyond it.
+	memData := callContext.memory.Data()
 	v := uint256.NewInt()
-	v.SetBytes(callContext.memory.GetPtr(int64(offset.Uint64()), 32))
+	v.SetBytes(getData(memData, offset.Uint64(), 32))
 	r := uint256.NewInt()
-	r.SetBytes(callContext.memory.GetPtr(int64(offset.Uint64()+32), 32))
+	r.SetBytes(getData(memData, offset.Uint64()+32, 32))
 	s := uint256.NewInt()
-	s.SetBytes(callContext.memory.GetPtr(int64(offset.Uint64()+64), 32))
+	s.SetBytes(getData(memData, offset.Uint64()+64, 32))
 	c := uint256.NewInt()
-	c.SetBytes(callContext.memory.GetPtr(int64(offset.Uint64()+96), 32))
+	c.SetBytes(getData(memData, offset.Uint64()+96, 32))
 	commit := c.Bytes32()
 
 	callContext.authorized = nil
